@@ -26,6 +26,9 @@ FILES = {
     "barfoo11.py": "class Baz:\n    pass\n",
     # a module whose name ends in "typing", a class whose name contains "NoneType"
     "mytyping11.py": "class Foo:\n    pass\n\nclass NoneTypeish:\n    pass\n",
+    # a class nested in a class that is named like another imported module: stripping the prefix `ab11.` exposes `ba11.X`
+    "ab11.py": "class ba11:\n    class X:\n        pass\n",
+    "ba11.py": "class Y:\n    pass\n",
     "target11.py": "class Own:\n    class Deep:\n        pass\n\ndef f(x):\n    return x\n\ndef g(d):\n    return d\n\ndef h(x, y):\n    return x\n\nclass K:\n    def m(self, x):\n        return x\n",
 }
 
@@ -163,7 +166,8 @@ def run(ctx):
         importlib.invalidate_caches()
         zz, pzz, foo, barfoo, target = (importlib.import_module(n) for n in ("zz11", "pkg11.zz11", "foo11", "barfoo11", "target11"))
         myt = importlib.import_module("mytyping11")
-        leaves = [type(NotImplemented), type(type.__dict__), myt.Foo, myt.NoneTypeish, int, str, NoneType, Any, zz.B, zz.B.Nested, zz.zz11, pzz.B, pzz.C, foo.Baz, foo.foo11, foo.foo11.Inner, barfoo.Baz, target.Own, target.Own.Deep, io.StringIO]
+        ab, ba = importlib.import_module("ab11"), importlib.import_module("ba11")
+        leaves = [ab.ba11.X, ba.Y, type(NotImplemented), type(type.__dict__), myt.Foo, myt.NoneTypeish, int, str, NoneType, Any, zz.B, zz.B.Nested, zz.zz11, pzz.B, pzz.C, foo.Baz, foo.foo11, foo.foo11.Inner, barfoo.Baz, target.Own, target.Own.Deep, io.StringIO]
         types = list(leaves)
         for a in leaves:
             types += [List[a], Optional[a] if a not in (NoneType, Any) else List[a], Dict[str, a], Tuple[a, int], Type[a] if isinstance(a, type) and a is not NoneType else Set[a], Iterator[a]]
@@ -277,7 +281,7 @@ def run(ctx):
                                 {"case": label, "order": order, "f.x": repr(ta), "h.x": repr(tb)}, {"duplicate_classes": dup, "error": repr(err), "stub": text[-700:]})
     finally:
         sys.path.remove(tmp)
-        for n in ("zz11", "pkg11.zz11", "pkg11", "foo11", "barfoo11", "target11", "mytyping11"):
+        for n in ("zz11", "pkg11.zz11", "pkg11", "foo11", "barfoo11", "target11", "mytyping11", "ab11", "ba11"):
             sys.modules.pop(n, None)
         shutil.rmtree(tmp, ignore_errors=True)
     return H.result()
